@@ -129,6 +129,18 @@ def run(tier, seed):
     n = 5000 if tier == 'quick' else 120000
     runner.run_generated(rep, gen(tier), check_case, n, runner.tier_workers(tier),
                          shrink_s=20 if tier == 'quick' else 120)
+    # the Table B of the version the message names: the same element (plain and under a marker operator) on two master
+    # table versions that define it differently, encoded one after the other by the one encoder object, both orders
+    from refbufr import tables as rtables
+    vs = gmsg.QUICK_VERSIONS + [16, 37] if tier == 'quick' else rtables.available_master_versions()
+    for tag, cases in gmsg.version_twin_runs(vs, 4 if tier == 'quick' else 6):
+        for case in cases:
+            out = check_case(case)
+            rep.add_case(case.key(), True, ['same_element_in_two_table_versions'] +
+                         (['same_element_under_marker_in_two_table_versions'] if tag.startswith('marker') else []), None)
+            for clause, detail in out.failures:
+                rep.add_failure('table versions: ' + clause, dict(detail, encoded_in_this_order=tag), case.to_json(),
+                                stage='table versions')
     fuzz.run_structured(rep, 'checks.c02', _fuzz_gen, tier)
     return rep.finish()
 
